@@ -61,7 +61,9 @@ CLAIMS = {
         "n/d, bare n when d = 1, validators), dynamic_survives, bpm_survives, text_survives, instance_survives (decodeInstance (encodeInstance i) = ok i for every "
         "valid instance), text_conv_output_readable (for ANY chord text, either notation, any key: every instance `text conv` emits is valid - "
         "convItems_valid by induction, using C03/C15 - hence read back by `write` as exactly the converted instance), decoded_is_valid (what `write` reads "
-        "is valid, so `write conv` re-prints round-trippable values). Tie: `crd text conv` output re-read as raw YAML scalars and compared with the model's "
+        "is valid), write_conv_output_readable (Crd/Props/C10Conv.lean: for EVERY document, dictionary, command list and flag set, whatever `write conv` prints "
+        "is read back by `write` as exactly the instances `write conv` had prepared - decoded input + `cmt` texts + flag overrides on the first instance; "
+        "override_valid, modifyCmt_valid, prepare_valid carry validity through the stages). Tie: `crd text conv` output re-read as raw YAML scalars and compared with the model's "
         "printed strings; `crd write conv -c cmt` (800 / 12,000 documents incl. flags, unknown and repeated commands) compared with the model, and on the real "
         "code `write conv | write event` compared with `write event` of the original document (real-vs-real oracle).",
    note="ASSUMED (not modelled): yaml.v3 Marshal/Unmarshal carries string scalars (any valid UTF-8) and mapping/sequence structure unchanged; exercised with "
